@@ -1,12 +1,1760 @@
-//! C20 — not implemented yet.
+//! C20 — actor identities are unique, stable and derived as specified. DESIGN §3 C20.
+//!
+//! Scenario `c20/identities`: every history (up to a depth and to small budgets) over Init.Exec,
+//! Init.Exec4, EAM.CreateExternal, a factory contract doing CREATE / CREATE2 (same salt twice,
+//! destroy-then-redeploy, re-entrant creation, reverting constructor), self-destructs and plain
+//! sends that auto-create accounts and placeholders, executed against the real actors. After
+//! every step the complete actor table, the complete Init address map, `next_id` and the nonce
+//! and code of every contract are compared with an id-registry reference model that is written
+//! from the property text and from Ethereum's address rules (Yellow Paper §7, EIP-1014, EIP-161,
+//! EIP-684), not from the actor source.
+use crate::util::*;
+use fil_actor_init::{Exec4Params, ExecParams, ExecReturn, State as InitState};
+use fil_actors_evm_shared::address::EthAddress;
+use fil_actors_runtime::runtime::Policy;
+use fil_actors_runtime::runtime::builtins::Type;
+use fil_actors_runtime::test_utils::{
+    ACCOUNT_ACTOR_CODE_ID, ACTOR_TYPES, CRON_ACTOR_CODE_ID, EVM_ACTOR_CODE_ID, MINER_ACTOR_CODE_ID,
+    MULTISIG_ACTOR_CODE_ID, PAYCH_ACTOR_CODE_ID, make_identity_cid,
+};
+use fil_actors_runtime::{
+    DEFAULT_HAMT_CONFIG, EAM_ACTOR_ADDR, EAM_ACTOR_ID, INIT_ACTOR_ADDR, Map2,
+    STORAGE_POWER_ACTOR_ADDR,
+};
+use fvm_ipld_encoding::{BytesDe, RawBytes};
+use fvm_shared::address::{Address, Payload, Protocol};
+use fvm_shared::econ::TokenAmount;
+use fvm_shared::sector::RegisteredPoStProof;
+use fvm_shared::{ActorID, METHOD_CONSTRUCTOR, METHOD_SEND};
+use mcvm::{FAUCET_ID, Inv, MsgKind, Snapshot, Store, Vm};
+use mcx::{Bounds, Key, Scenario, Step};
+use multihash_codetable::{Code as MhCode, MultihashDigest};
+use num_traits::Zero;
+use serde::{Deserialize, Serialize};
+use serde_json::json;
+use std::collections::{BTreeMap, BTreeSet};
+use std::sync::Arc;
 
-pub fn run(_tier: &str) -> ! {
-    eprintln!("C20: check not implemented");
-    std::process::exit(2)
+// =========================================================================================
+// Independent address arithmetic (Ethereum rules)
+// =========================================================================================
+
+type Eth = [u8; 20];
+
+fn keccak(data: &[u8]) -> [u8; 32] {
+    MhCode::Keccak256.digest(data).digest().try_into().unwrap()
+}
+
+/// Minimal RLP: `[20-byte string, unsigned integer]`.
+fn rlp_sender_nonce(sender: &Eth, nonce: u64) -> Vec<u8> {
+    let mut body = vec![0x80 + 20];
+    body.extend_from_slice(sender);
+    if nonce == 0 {
+        body.push(0x80);
+    } else if nonce < 0x80 {
+        body.push(nonce as u8);
+    } else {
+        let be = nonce.to_be_bytes();
+        let skip = be.iter().take_while(|b| **b == 0).count();
+        body.push(0x80 + (8 - skip) as u8);
+        body.extend_from_slice(&be[skip..]);
+    }
+    assert!(body.len() < 56);
+    let mut out = vec![0xc0 + body.len() as u8];
+    out.extend(body);
+    out
+}
+
+/// Yellow Paper: address of a contract created by `sender` with account nonce `nonce`.
+fn create_addr(sender: &Eth, nonce: u64) -> Eth {
+    keccak(&rlp_sender_nonce(sender, nonce))[12..].try_into().unwrap()
+}
+
+/// EIP-1014.
+fn create2_addr(sender: &Eth, salt: u8, initcode: &[u8]) -> Eth {
+    let mut v = vec![0xff];
+    v.extend_from_slice(sender);
+    let mut s = [0u8; 32];
+    s[31] = salt;
+    v.extend_from_slice(&s);
+    v.extend_from_slice(&keccak(initcode));
+    keccak(&v)[12..].try_into().unwrap()
+}
+
+/// Reserved Ethereum address ranges of the FEVM (FIP-0054/0055): the precompile ranges
+/// `0x00…00xx` and `0xfe00…00xx` (which include the null address) and masked actor ids
+/// `0xff ‖ 0^11 ‖ id`.
+fn reserved(a: &Eth) -> bool {
+    let mid_zero = a[1..19].iter().all(|b| *b == 0);
+    ((a[0] == 0 || a[0] == 0xfe) && mid_zero) || (a[0] == 0xff && a[1..12].iter().all(|b| *b == 0))
+}
+
+fn self_test() {
+    let h = |s: &str| -> Eth { hex::decode(s).unwrap().try_into().unwrap() };
+    // public CREATE / CREATE2 vectors (EIP-1014 example 0 and well-known nonce vectors)
+    assert_eq!(create_addr(&[0; 20], 0), h("bd770416a3345f91e4b34576cb804a576fa48eb1"));
+    assert_eq!(create_addr(&[0; 20], 200), h("a6b14387c1356b443061155e9c3e17f72c1777e5"));
+    assert_eq!(create_addr(&[123; 20], 12345), h("809a9ab0471e78ee5100e96ca4d0828d1b97e2ba"));
+    assert_eq!(create2_addr(&[0; 20], 0, &[0x00]), h("4d1a2e2bb4f88f0250f26ffff098b0b30b26bf38"));
+    assert!(reserved(&[0; 20]) && reserved(&masked(7)) && !reserved(&[0xE1; 20]));
+}
+
+fn masked(id: u64) -> Eth {
+    let mut a = [0u8; 20];
+    a[0] = 0xff;
+    a[12..].copy_from_slice(&id.to_be_bytes());
+    a
+}
+
+fn f4(eth: &Eth) -> Address {
+    Address::new_delegated(EAM_ACTOR_ID, eth).unwrap()
+}
+
+fn akey(a: &Address) -> String {
+    hex::encode(a.to_bytes())
+}
+
+// =========================================================================================
+// Bytecode (hand-assembled; the model knows what each program does because it is written here)
+// =========================================================================================
+
+mod op {
+    pub const STOP: u8 = 0x00;
+    pub const EQ: u8 = 0x14;
+    pub const BYTE: u8 = 0x1a;
+    pub const SHR: u8 = 0x1c;
+    pub const CALLER: u8 = 0x33;
+    pub const CALLDATALOAD: u8 = 0x35;
+    pub const CODECOPY: u8 = 0x39;
+    pub const POP: u8 = 0x50;
+    pub const MSTORE: u8 = 0x52;
+    pub const MSTORE8: u8 = 0x53;
+    pub const JUMPI: u8 = 0x57;
+    pub const GAS: u8 = 0x5a;
+    pub const JUMPDEST: u8 = 0x5b;
+    pub const PUSH0: u8 = 0x5f;
+    pub const DUP1: u8 = 0x80;
+    pub const CREATE: u8 = 0xf0;
+    pub const CALL: u8 = 0xf1;
+    pub const RETURN: u8 = 0xf3;
+    pub const CREATE2: u8 = 0xf5;
+    pub const REVERT: u8 = 0xfd;
+    pub const SELFDESTRUCT: u8 = 0xff;
+}
+use op::*;
+
+enum I {
+    B(u8),
+    Push(Vec<u8>),
+    Label(&'static str),
+    PushLabel(&'static str),
+}
+
+fn asm(items: &[I]) -> Vec<u8> {
+    let mut pos = BTreeMap::new();
+    let mut pc = 0usize;
+    for i in items {
+        match i {
+            I::B(_) => pc += 1,
+            I::Push(d) => pc += 1 + d.len(),
+            I::Label(l) => {
+                pos.insert(*l, pc);
+                pc += 1;
+            }
+            I::PushLabel(_) => pc += 3,
+        }
+    }
+    let mut out = vec![];
+    for i in items {
+        match i {
+            I::B(b) => out.push(*b),
+            I::Push(d) => {
+                assert!(!d.is_empty() && d.len() <= 32);
+                out.push(0x5f + d.len() as u8);
+                out.extend_from_slice(d);
+            }
+            I::Label(_) => out.push(JUMPDEST),
+            I::PushLabel(l) => {
+                let p = pos[l];
+                out.extend_from_slice(&[0x61, (p >> 8) as u8, p as u8]);
+            }
+        }
+    }
+    out
+}
+
+/// Runtime code of a contract that self-destructs (to its caller) whenever it is invoked.
+const RT_KILLABLE: &[u8] = &[CALLER, SELFDESTRUCT];
+/// Runtime code that does nothing.
+const RT_INERT: &[u8] = &[STOP];
+
+/// init code returning `RT_KILLABLE`
+fn init_killable() -> Vec<u8> {
+    asm(&[I::Push(RT_KILLABLE.to_vec()), I::B(PUSH0), I::B(MSTORE), I::Push(vec![2]), I::Push(vec![30]), I::B(RETURN)])
+}
+/// init code returning `RT_INERT`
+fn init_ok() -> Vec<u8> {
+    asm(&[I::B(PUSH0), I::B(PUSH0), I::B(MSTORE8), I::Push(vec![1]), I::B(PUSH0), I::B(RETURN)])
+}
+fn init_revert() -> Vec<u8> {
+    vec![PUSH0, PUSH0, REVERT]
+}
+/// init code returning the one-byte code 0xEF (EIP-3541 forbids it)
+fn init_ef() -> Vec<u8> {
+    asm(&[I::Push(vec![0xEF]), I::B(PUSH0), I::B(MSTORE8), I::Push(vec![1]), I::B(PUSH0), I::B(RETURN)])
+}
+/// init code that self-destructs inside the constructor
+fn init_sd() -> Vec<u8> {
+    vec![CALLER, SELFDESTRUCT]
+}
+const FOP_CREATE: u8 = 1;
+const FOP_CREATE2: u8 = 2;
+const FOP_TWICE: u8 = 3;
+const FOP_KILL_RECREATE: u8 = 4;
+const FOP_REENTRANT: u8 = 5;
+const FOP_REVERTING: u8 = 6;
+
+/// init code that calls its creator back (`creator.call([FOP_CREATE])`) and returns `RT_INERT`
+fn init_reentrant() -> Vec<u8> {
+    asm(&[
+        I::Push(vec![FOP_CREATE]), I::B(PUSH0), I::B(MSTORE8),
+        I::B(PUSH0), I::B(PUSH0), I::Push(vec![1]), I::B(PUSH0), I::B(PUSH0), I::B(CALLER), I::B(GAS), I::B(CALL), I::B(POP),
+        I::B(PUSH0), I::B(PUSH0), I::B(MSTORE8),
+        I::Push(vec![1]), I::B(PUSH0), I::B(RETURN),
+    ])
+}
+
+/// The factory. Call data: byte 0 = operation, byte 1 = salt, bytes 2..22 = an address.
+/// Every operation returns the 32-byte result word(s) of its CREATE/CREATE2 instruction(s).
+fn factory_runtime() -> Vec<u8> {
+    let mut v: Vec<I> = vec![];
+    let b = |v: &mut Vec<I>, bs: &[u8]| {
+        for x in bs {
+            v.push(I::B(*x))
+        }
+    };
+    // op = byte(0, calldataload(0))
+    b(&mut v, &[PUSH0, CALLDATALOAD, PUSH0, BYTE]);
+    for (k, l) in [
+        (FOP_CREATE, "create"),
+        (FOP_CREATE2, "create2"),
+        (FOP_TWICE, "twice"),
+        (FOP_KILL_RECREATE, "killre"),
+        (FOP_REENTRANT, "reent"),
+        (FOP_REVERTING, "revert"),
+    ] {
+        b(&mut v, &[DUP1]);
+        v.push(I::Push(vec![k]));
+        b(&mut v, &[EQ]);
+        v.push(I::PushLabel(l));
+        b(&mut v, &[JUMPI]);
+    }
+    b(&mut v, &[STOP]);
+    let ret_word = |v: &mut Vec<I>| {
+        // mstore(0, top); return(0, 32)
+        v.push(I::B(PUSH0));
+        v.push(I::B(MSTORE));
+        v.push(I::Push(vec![32]));
+        v.push(I::B(PUSH0));
+        v.push(I::B(RETURN));
+    };
+    // store `code` right-aligned in memory word 0; returns (offset, len)
+    let stage = |v: &mut Vec<I>, code: Vec<u8>| -> (u8, u8) {
+        let n = code.len() as u8;
+        v.push(I::Push(code));
+        v.push(I::B(PUSH0));
+        v.push(I::B(MSTORE));
+        (32 - n, n)
+    };
+    let do_create = |v: &mut Vec<I>, (off, n): (u8, u8)| {
+        v.push(I::Push(vec![n]));
+        v.push(I::Push(vec![off]));
+        v.push(I::B(PUSH0));
+        v.push(I::B(CREATE));
+    };
+    let do_create2 = |v: &mut Vec<I>, (off, n): (u8, u8)| {
+        // salt = byte(1, calldataload(0))
+        v.push(I::B(PUSH0));
+        v.push(I::B(CALLDATALOAD));
+        v.push(I::Push(vec![1]));
+        v.push(I::B(BYTE));
+        v.push(I::Push(vec![n]));
+        v.push(I::Push(vec![off]));
+        v.push(I::B(PUSH0));
+        v.push(I::B(CREATE2));
+    };
+
+    v.push(I::Label("create"));
+    let s = stage(&mut v, init_killable());
+    do_create(&mut v, s);
+    ret_word(&mut v);
+
+    v.push(I::Label("create2"));
+    let s = stage(&mut v, init_killable());
+    do_create2(&mut v, s);
+    ret_word(&mut v);
+
+    v.push(I::Label("twice"));
+    let s = stage(&mut v, init_killable());
+    do_create2(&mut v, s);
+    v.push(I::Push(vec![32]));
+    v.push(I::B(MSTORE));
+    do_create2(&mut v, s);
+    v.push(I::Push(vec![64]));
+    v.push(I::B(MSTORE));
+    v.push(I::Push(vec![64]));
+    v.push(I::Push(vec![32]));
+    v.push(I::B(RETURN));
+
+    v.push(I::Label("killre"));
+    // call(gas, address(calldata[2..22]), 0, 0, 0, 0, 0)
+    b(&mut v, &[PUSH0, PUSH0, PUSH0, PUSH0, PUSH0]);
+    v.push(I::Push(vec![2]));
+    v.push(I::B(CALLDATALOAD));
+    v.push(I::Push(vec![96]));
+    b(&mut v, &[SHR, GAS, CALL, POP]);
+    let s = stage(&mut v, init_killable());
+    do_create2(&mut v, s);
+    ret_word(&mut v);
+
+    v.push(I::Label("reent"));
+    let s = stage(&mut v, init_reentrant());
+    do_create(&mut v, s);
+    ret_word(&mut v);
+
+    v.push(I::Label("revert"));
+    let s = stage(&mut v, init_revert());
+    do_create(&mut v, s);
+    ret_word(&mut v);
+
+    asm(&v)
+}
+
+/// Generic deployer: init code that returns `runtime`.
+fn init_returning(runtime: &[u8]) -> Vec<u8> {
+    let n = runtime.len();
+    let len = vec![(n >> 8) as u8, n as u8];
+    let mut c = asm(&[
+        I::Push(len.clone()), I::Push(vec![0, 13]), I::B(PUSH0), I::B(CODECOPY),
+        I::Push(len), I::B(PUSH0), I::B(RETURN),
+    ]);
+    assert_eq!(c.len(), 13);
+    c.extend_from_slice(runtime);
+    c
+}
+
+// =========================================================================================
+// Alphabet
+// =========================================================================================
+
+#[derive(Clone, Copy, Debug, Serialize, Deserialize, PartialEq, Eq, PartialOrd, Ord)]
+pub enum Caller {
+    /// a key account (External message)
+    Account,
+    /// a multisig actor (impersonated)
+    Multisig,
+    /// the power actor (impersonated)
+    Power,
+    /// the Ethereum address manager (impersonated)
+    Eam,
+}
+
+#[derive(Clone, Copy, Debug, Serialize, Deserialize, PartialEq, Eq)]
+pub enum Code {
+    MultisigOk,
+    MultisigBadParams,
+    Paych,
+    Miner,
+    Account,
+    Evm,
+    Junk,
+    Singleton,
+}
+
+#[derive(Clone, Copy, Debug, Serialize, Deserialize, PartialEq, Eq, PartialOrd, Ord)]
+pub enum Sender {
+    /// the key account K
+    Account,
+    /// the Ethereum account E (a placeholder until its first message)
+    EthAccount,
+}
+
+#[derive(Clone, Copy, Debug, Serialize, Deserialize, PartialEq, Eq)]
+pub enum InitCode {
+    Empty,
+    Ok,
+    Reverting,
+    EfCode,
+    SelfDestructing,
+}
+
+#[derive(Clone, Copy, Debug, Serialize, Deserialize, PartialEq, Eq)]
+pub enum Sub {
+    /// a fixed, otherwise unused Ethereum address
+    Fresh,
+    /// the address that `Send(Placeholder)` turns into a placeholder
+    PlaceholderAddr,
+    /// the factory's address (a live contract)
+    Factory,
+}
+
+#[derive(Clone, Copy, Debug, Serialize, Deserialize, PartialEq, Eq)]
+pub enum FOp {
+    Create,
+    Create2(u8),
+    /// two CREATE2 with the same salt and init code in one message
+    Create2Twice(u8),
+    /// call the CREATE2 child (it self-destructs), then CREATE2 it again in the same message
+    KillAndRecreate(u8),
+    /// CREATE of a child whose constructor calls the factory back, which CREATEs again
+    CreateReentrant,
+    /// CREATE of a child whose constructor reverts
+    CreateReverting,
+}
+
+#[derive(Clone, Copy, Debug, Serialize, Deserialize, PartialEq, Eq)]
+pub enum To {
+    FreshSecp,
+    FreshBls,
+    Placeholder,
+    ForeignNamespace,
+    Precompile,
+    NativePrecompile,
+    MaskedId,
+    Null,
+    /// the address the factory's CREATE2(salt) will produce
+    Create2Addr(u8),
+    /// the address the factory's next CREATE will produce
+    NextCreateAddr,
+    /// the address the next CreateExternal of that sender will produce
+    NextCreateExternalAddr(Sender),
+}
+
+#[derive(Clone, Debug, Serialize, Deserialize, PartialEq, Eq)]
+pub enum Act {
+    Exec(Caller, Code),
+    /// the real `Power.CreateMiner` (power calls `Init.Exec` itself)
+    PowerCreateMiner,
+    Exec4(Caller, Sub),
+    CreateExternal(Sender, InitCode),
+    Factory(FOp),
+    /// an account invokes the factory's CREATE2(salt) child
+    InvokeChild(u8),
+    Send(To),
+}
+
+// =========================================================================================
+// The id-registry reference model
+// =========================================================================================
+
+#[derive(Clone, Copy, Debug, Serialize, PartialEq, Eq)]
+pub enum Kind {
+    Account,
+    EthAccount,
+    Placeholder,
+    Evm,
+    Multisig,
+    Paych,
+    Miner,
+    /// singletons and everything else present in the base state
+    Other,
+}
+
+fn kind_of(code: &cid::Cid) -> Kind {
+    match ACTOR_TYPES.get(code) {
+        Some(Type::Account) => Kind::Account,
+        Some(Type::EthAccount) => Kind::EthAccount,
+        Some(Type::Placeholder) => Kind::Placeholder,
+        Some(Type::EVM) => Kind::Evm,
+        Some(Type::Multisig) => Kind::Multisig,
+        Some(Type::PaymentChannel) => Kind::Paych,
+        Some(Type::Miner) => Kind::Miner,
+        _ => Kind::Other,
+    }
+}
+
+#[derive(Clone, Debug, Serialize, PartialEq, Eq)]
+pub struct Ent {
+    pub kind: Kind,
+    /// delegated (f4) address, hex of the address bytes
+    pub f4: Option<String>,
+}
+
+#[derive(Clone, Copy, Debug, Serialize, PartialEq, Eq)]
+pub enum Rt {
+    Factory,
+    Killable,
+    Inert,
+    Empty,
+}
+
+#[derive(Clone, Debug, Serialize, PartialEq, Eq)]
+pub struct EvmM {
+    /// Ethereum account nonce of the contract (EIP-161: starts at 1, +1 per CREATE/CREATE2)
+    pub nonce: u64,
+    /// self-destructed in an earlier message
+    pub dead: bool,
+    pub rt: Rt,
+}
+
+#[derive(Clone, Debug, Serialize)]
+pub struct Model {
+    pub next_id: ActorID,
+    /// Not serialised into the state key: after every step these two maps are required to be
+    /// *equal* to the implementation's actor table / Init map, which the state root commits to.
+    #[serde(skip)]
+    pub actors: Arc<BTreeMap<ActorID, Ent>>,
+    /// the complete address registry: hex(address bytes) -> id
+    #[serde(skip)]
+    pub addrs: Arc<BTreeMap<String, ActorID>>,
+    pub evm: BTreeMap<ActorID, EvmM>,
+    /// CID of the Init actor's state the registry was last compared with (same CID, same content)
+    #[serde(skip)]
+    pub init_head: Option<cid::Cid>,
+    /// impersonated callers that already created an actor: the VM derives the stable address of
+    /// a new actor from (origin, origin nonce, counter) and an impersonated actor has no nonce,
+    /// so its next creation repeats the address – which must be refused, never remapped.
+    pub imp_used: BTreeSet<Caller>,
+    pub creations_left: u32,
+    pub kills_left: u32,
+    pub idle_left: u32,
+}
+
+#[derive(Clone, Copy, Debug, PartialEq, Eq)]
+enum Target {
+    Free,
+    Placeholder(ActorID),
+    Live(ActorID),
+    /// self-destructed earlier in the current message
+    Zombie(ActorID),
+    Dead(ActorID),
+    Occupied(ActorID),
+}
+
+#[derive(Clone, Copy, Debug, PartialEq, Eq)]
+enum Must {
+    Succeed,
+    Fail,
+    Either,
+}
+
+#[derive(Clone, Copy, Debug, PartialEq, Eq)]
+enum Ctor {
+    Valid,
+    Reverts,
+    /// the property does not say whether this constructor succeeds (EIP-3541 code, a
+    /// constructor that self-destructs, bad multisig parameters)
+    Unspecified,
+}
+
+/// What the property says about a deployment to `t`.
+fn deploy_rule(t: Target, is_reserved: bool, ctor: Ctor) -> Must {
+    if is_reserved {
+        return Must::Fail; // reserved ranges are never assigned
+    }
+    if ctor == Ctor::Reverts {
+        return Must::Fail;
+    }
+    match t {
+        Target::Free | Target::Placeholder(_) => {
+            if ctor == Ctor::Valid { Must::Succeed } else { Must::Either }
+        }
+        // never overwrites an existing actor …
+        Target::Live(_) | Target::Occupied(_) => Must::Fail,
+        // … other than a self-destructed contract: allowed, not demanded
+        Target::Zombie(_) | Target::Dead(_) => Must::Either,
+    }
+}
+
+/// What the model expects a step to do to the budgets, known before the message is executed.
+#[derive(Clone, Copy, Debug, PartialEq, Eq)]
+enum Forecast {
+    Creates,
+    Kills,
+    /// changes nothing in the registry but the sender's nonce / a contract nonce
+    Idle,
+    /// refused message of an impersonated caller: leads back to the same state
+    Nothing,
+    Unknown,
+}
+
+fn forecast_of(must: Must, sender_has_nonce: bool) -> Forecast {
+    match must {
+        Must::Succeed => Forecast::Creates,
+        Must::Fail => {
+            if sender_has_nonce { Forecast::Idle } else { Forecast::Nothing }
+        }
+        Must::Either => Forecast::Unknown,
+    }
+}
+
+/// Steps beyond the budgets are not part of the explored space; when the model is definite
+/// about the class of a step it is pruned without being executed.
+fn pruned(m: &Model, f: Forecast) -> bool {
+    match f {
+        Forecast::Creates => m.creations_left == 0,
+        Forecast::Kills => m.kills_left == 0,
+        Forecast::Idle => m.idle_left == 0,
+        Forecast::Nothing | Forecast::Unknown => false,
+    }
+}
+
+/// Per-step working copy of the model.
+struct Tx {
+    m: Model,
+    zombies: BTreeSet<ActorID>,
+    /// ids that must have gained exactly one new stable (f2) address in this step
+    robust_gain: Vec<ActorID>,
+    promotions: u32,
+    resurrections: u32,
+    kills: u32,
+    viol: Option<String>,
+    /// the actor table of the registry before the step
+    before: Arc<BTreeMap<ActorID, Ent>>,
+}
+
+impl Tx {
+    fn fail(&mut self, s: String) {
+        if self.viol.is_none() {
+            self.viol = Some(s);
+        }
+    }
+
+    /// "Failed constructors leave neither actor nor mapping": for every constructor call made by
+    /// the Init actor that failed (and was not followed by a successful one for the same id in the
+    /// same message), the id holds afterwards what it held before the message – nothing, or the
+    /// placeholder the deployment was aimed at. (Mappings are covered by the registry comparison.)
+    fn failed_constructors(&mut self, vm: &Vm, r: &Inv) {
+        let init = INIT_ACTOR_ADDR.id().unwrap();
+        let flat = r.flat();
+        for (i, inv) in flat.iter().enumerate() {
+            if inv.method != METHOD_CONSTRUCTOR || inv.from != init || inv.code.is_success() {
+                continue;
+            }
+            let Some(tid) = inv.to_id() else { continue };
+            let redone = flat[i + 1..].iter().any(|x| {
+                x.method == METHOD_CONSTRUCTOR && x.from == init && x.code.is_success() && x.to_id() == Some(tid)
+            });
+            if redone {
+                continue;
+            }
+            let now = vm.actor(tid).map(|a| kind_of(&a.code));
+            let was = self.before.get(&tid).map(|e| e.kind);
+            if now != was {
+                self.fail(format!(
+                    "the constructor of actor {tid} failed, yet the id holds {now:?} after the message (before: {was:?})\n{}",
+                    r.tree()
+                ));
+            }
+        }
+    }
+
+    fn judge(&mut self, vm: &Vm, must: Must, ok: bool, what: &str, r: &Inv) {
+        self.failed_constructors(vm, r);
+        match (must, ok) {
+            (Must::Succeed, false) => self.fail(format!(
+                "{what}: a creation the property permits failed\n{}",
+                r.tree()
+            )),
+            (Must::Fail, true) => self.fail(format!("{what}: must be refused, but it succeeded")),
+            _ => {}
+        }
+    }
+
+    fn target(&self, eth: &Eth) -> Target {
+        match self.m.addrs.get(&akey(&f4(eth))) {
+            None => Target::Free,
+            Some(&id) => match self.m.actors.get(&id).map(|e| e.kind) {
+                Some(Kind::Placeholder) => Target::Placeholder(id),
+                Some(Kind::Evm) => {
+                    if self.zombies.contains(&id) {
+                        Target::Zombie(id)
+                    } else if self.m.evm[&id].dead {
+                        Target::Dead(id)
+                    } else {
+                        Target::Live(id)
+                    }
+                }
+                _ => Target::Occupied(id),
+            },
+        }
+    }
+
+    fn new_actor(&mut self, kind: Kind, addr: Option<&Address>, via_init: bool) -> ActorID {
+        let id = self.m.next_id;
+        self.m.next_id += 1;
+        let is_f4 = addr.map(|a| a.protocol() == Protocol::Delegated).unwrap_or(false);
+        Arc::make_mut(&mut self.m.actors).insert(id, Ent { kind, f4: if is_f4 { addr.map(akey) } else { None } });
+        if let Some(a) = addr {
+            Arc::make_mut(&mut self.m.addrs).insert(akey(a), id);
+        }
+        if via_init {
+            self.robust_gain.push(id);
+        }
+        id
+    }
+
+    /// A deployment to `eth` succeeded: update the registry.
+    /// `reincarnation_gains_address`: a new incarnation made by Init directly (not through the
+    /// contract's own resurrection entry point) gets a further stable address.
+    fn deployed(&mut self, eth: &Eth, rt: Rt, selfdestructed_in_ctor: bool, reincarnation_gains_address: bool) -> ActorID {
+        let fresh = EvmM { nonce: 1, dead: false, rt };
+        let id = match self.target(eth) {
+            Target::Free => self.new_actor(Kind::Evm, Some(&f4(eth)), true),
+            Target::Placeholder(id) => {
+                Arc::make_mut(&mut self.m.actors).get_mut(&id).unwrap().kind = Kind::Evm;
+                self.robust_gain.push(id);
+                self.promotions += 1;
+                id
+            }
+            Target::Zombie(id) | Target::Dead(id) => {
+                // a new incarnation at the same id: nothing in the registry moves
+                self.zombies.remove(&id);
+                self.resurrections += 1;
+                if reincarnation_gains_address {
+                    self.robust_gain.push(id);
+                }
+                id
+            }
+            Target::Live(id) | Target::Occupied(id) => id, // already reported by `judge`
+        };
+        self.m.evm.insert(id, fresh);
+        if selfdestructed_in_ctor {
+            self.zombies.insert(id);
+        }
+        id
+    }
+}
+
+// =========================================================================================
+// Scenario
+// =========================================================================================
+
+pub struct Cast {
+    pub k: (ActorID, Address),
+    pub k2: ActorID,
+    pub msig: ActorID,
+    pub e: ActorID,
+    pub e_eth: Eth,
+    pub f: ActorID,
+    pub f_eth: Eth,
+    /// FIP-0055: the Ethereum-style address of a native account is the keccak hash of its key address
+    pub k_stable: Eth,
+}
+
+pub struct W {
+    pub vm: Vm,
+    pub cast: Cast,
+    pub base: Snapshot,
+    pub base_model: Model,
+    /// a property violation seen while building the base state (reported by the first step)
+    pub base_problem: Option<String>,
+    /// keccak of the runtime code of each contract kind [Factory, Killable, Inert, Empty]
+    pub code_hash: [[u8; 32]; 4],
+}
+
+pub struct Identities {
+    pub creations: u32,
+    pub kills: u32,
+    pub idle: u32,
+}
+
+const E_ETH: Eth = [0xE1; 20];
+const P1_ETH: Eth = [0xA1; 20];
+const X1_ETH: Eth = [0xB2; 20];
+const POWER_ID: ActorID = 4;
+/// attached to every miner creation (far above the creation deposit, ~32 FIL at this network state)
+const MINER_VALUE_FIL: i64 = 1000;
+
+fn caller_id(w: &W, c: Caller) -> ActorID {
+    match c {
+        Caller::Account => w.cast.k.0,
+        Caller::Multisig => w.cast.msig,
+        Caller::Power => POWER_ID,
+        Caller::Eam => EAM_ACTOR_ID,
+    }
+}
+
+fn init_code(i: InitCode) -> (Vec<u8>, Ctor, Rt) {
+    match i {
+        InitCode::Empty => (vec![], Ctor::Valid, Rt::Empty),
+        InitCode::Ok => (init_ok(), Ctor::Valid, Rt::Inert),
+        InitCode::Reverting => (init_revert(), Ctor::Reverts, Rt::Empty),
+        InitCode::EfCode => (init_ef(), Ctor::Unspecified, Rt::Empty),
+        InitCode::SelfDestructing => (init_sd(), Ctor::Unspecified, Rt::Empty),
+    }
+}
+
+fn rt_code(rt: Rt) -> Vec<u8> {
+    match rt {
+        Rt::Factory => factory_runtime(),
+        Rt::Killable => RT_KILLABLE.to_vec(),
+        Rt::Inert => RT_INERT.to_vec(),
+        Rt::Empty => vec![],
+    }
+}
+
+fn read_addr_map(vm: &Vm) -> (ActorID, BTreeMap<String, ActorID>) {
+    let st: InitState = vm.state_of(INIT_ACTOR_ADDR.id().unwrap()).expect("init state");
+    let map: Map2<&Store, Address, ActorID> =
+        Map2::load(&vm.store, &st.address_map, DEFAULT_HAMT_CONFIG, "addresses").expect("init address map");
+    let mut out = BTreeMap::new();
+    map.for_each(|k, v| {
+        out.insert(akey(&k), *v);
+        Ok(())
+    })
+    .expect("init address map walk");
+    (st.next_id, out)
+}
+
+fn is_f2_key(k: &str) -> bool {
+    k.starts_with("02")
+}
+
+fn evm_ctor(creator: &Eth, initcode: &[u8]) -> RawBytes {
+    RawBytes::serialize(fil_actor_evm::ConstructorParams {
+        creator: EthAddress(*creator),
+        initcode: RawBytes::new(initcode.to_vec()),
+    })
+    .unwrap()
+}
+
+impl Identities {
+    /// Registry as the implementation presents it (used once, for the base state).
+    fn observe(&self, vm: &Vm) -> Model {
+        let (next_id, addrs) = read_addr_map(vm);
+        let mut actors = BTreeMap::new();
+        let mut evm = BTreeMap::new();
+        for (id, a) in vm.actor_states() {
+            let kind = kind_of(&a.code);
+            actors.insert(id, Ent { kind, f4: a.delegated_address.as_ref().map(akey) });
+            if kind == Kind::Evm {
+                let st: fil_actor_evm::State = vm.state_of(id).expect("evm state");
+                evm.insert(id, EvmM { nonce: st.nonce, dead: false, rt: Rt::Factory });
+            }
+        }
+        Model {
+            next_id,
+            actors: Arc::new(actors),
+            addrs: Arc::new(addrs),
+            evm,
+            init_head: vm.actor(INIT_ACTOR_ADDR.id().unwrap()).map(|a| a.state),
+            imp_used: BTreeSet::new(),
+            creations_left: self.creations,
+            kills_left: self.kills,
+            idle_left: self.idle,
+        }
+    }
+
+    /// Compare the implementation with the registry model. `before` is the registry before
+    /// the step.
+    fn compare(&self, w: &W, before: &Model, tx: &mut Tx) {
+        let vm = &w.vm;
+        let head = vm.actor(INIT_ACTOR_ADDR.id().unwrap()).map(|a| a.state);
+        let next_id;
+        if head.is_some() && head == before.init_head {
+            // the Init actor's state is bit-identical: no id was allocated, no address was mapped
+            next_id = before.next_id;
+            if tx.m.next_id != before.next_id || tx.m.addrs != before.addrs || !tx.robust_gain.is_empty() {
+                tx.fail(format!(
+                    "the registry model expects next_id {} and {} new mapping(s), but the Init actor's state did not change (next_id {})",
+                    tx.m.next_id,
+                    tx.m.addrs.len() as i64 - before.addrs.len() as i64,
+                    before.next_id
+                ));
+                return;
+            }
+        } else {
+            let (nid, impl_map) = read_addr_map(vm);
+            next_id = nid;
+            if next_id != tx.m.next_id {
+                tx.fail(format!("next_id is {next_id}, the registry model expects {}", tx.m.next_id));
+                return;
+            }
+            // 1. stability: every address that was mapped still maps to the same id
+            for (a, id) in before.addrs.iter() {
+                match impl_map.get(a) {
+                    Some(x) if x == id => {}
+                    other => {
+                        tx.fail(format!("address {a} was mapped to id {id} and is now mapped to {other:?}"));
+                        return;
+                    }
+                }
+            }
+            // 2. new mappings: exactly the predicted key/f4 addresses; one new stable address for each
+            //    actor created through Init (its value is the VM's business and is adopted)
+            let mut gained: Vec<ActorID> = vec![];
+            for (a, id) in &impl_map {
+                if before.addrs.contains_key(a) {
+                    continue;
+                }
+                if is_f2_key(a) {
+                    gained.push(*id);
+                } else if tx.m.addrs.get(a) != Some(id) {
+                    tx.fail(format!("unexpected new mapping {a} -> {id} (model: {:?})", tx.m.addrs.get(a)));
+                    return;
+                }
+            }
+            for (a, id) in tx.m.addrs.iter() {
+                if !impl_map.contains_key(a) {
+                    tx.fail(format!("the model expects the mapping {a} -> {id}, the Init map has none"));
+                    return;
+                }
+            }
+            gained.sort();
+            let mut want = tx.robust_gain.clone();
+            want.sort();
+            if gained != want {
+                tx.fail(format!("new stable (f2) addresses were mapped to ids {gained:?}, expected one each for {want:?}"));
+                return;
+            }
+            tx.m.addrs = Arc::new(impl_map);
+        }
+        tx.m.init_head = head;
+        // 3. the actor table: ids, code kind and delegated address
+        let table = vm.actor_states();
+        for (id, a) in &table {
+            let kind = kind_of(&a.code);
+            let f4a = a.delegated_address.as_ref().map(akey);
+            match tx.m.actors.get(id) {
+                None => {
+                    tx.fail(format!("actor {id} ({kind:?}, f4 {f4a:?}) exists but the registry model has no such id"));
+                    return;
+                }
+                Some(e) => {
+                    if e.kind != kind || e.f4 != f4a {
+                        let was = before.actors.get(id);
+                        tx.fail(format!("actor {id} is ({kind:?}, f4 {f4a:?}); the registry model expects ({:?}, f4 {:?}); before the step: {was:?}", e.kind, e.f4));
+                        return;
+                    }
+                }
+            }
+            if *id >= next_id {
+                tx.fail(format!("actor id {id} is not below next_id {next_id}"));
+                return;
+            }
+            // reserved ranges are never assigned (a placeholder made by a plain send is the VM's
+            // doing and holds no code)
+            if let Some(Payload::Delegated(d)) = a.delegated_address.as_ref().map(|d| *d.payload())
+                && d.namespace() == EAM_ACTOR_ID
+                && let Ok(eth) = <Eth>::try_from(d.subaddress())
+                && reserved(&eth)
+                && kind != Kind::Placeholder
+            {
+                tx.fail(format!("actor {id} ({kind:?}) holds the reserved Ethereum address 0x{}", hex::encode(eth)));
+                return;
+            }
+        }
+        for id in tx.m.actors.keys() {
+            if !table.contains_key(id) {
+                tx.fail(format!("the registry model has actor {id} ({:?}) but the actor table does not", tx.m.actors[id]));
+                return;
+            }
+        }
+        // 4. contracts: nonce and (for live ones) code
+        for (id, e) in &tx.m.evm {
+            let Some(st) = vm.state_of::<fil_actor_evm::State>(*id) else {
+                tx.fail(format!("contract {id} has no decodable EVM state"));
+                return;
+            };
+            if st.nonce != e.nonce {
+                let was = before.evm.get(id).map(|x| x.nonce);
+                tx.fail(format!("contract {id} has nonce {}, Ethereum's rules give {} (before the step: {was:?})", st.nonce, e.nonce));
+                return;
+            }
+            if !e.dead && !tx.zombies.contains(id) && st.bytecode_hash.as_slice() != w.code_hash[e.rt as usize] {
+                tx.fail(format!("live contract {id} no longer has the code it was deployed with ({:?})", e.rt));
+                return;
+            }
+        }
+    }
+
+    fn exec_params(&self, w: &W, code: Code) -> (cid::Cid, RawBytes, TokenAmount, Kind) {
+        let k = id(w.cast.k.0);
+        match code {
+            Code::MultisigOk | Code::MultisigBadParams => (
+                *MULTISIG_ACTOR_CODE_ID,
+                RawBytes::serialize(fil_actor_multisig::ConstructorParams {
+                    signers: if code == Code::MultisigOk { vec![k] } else { vec![] },
+                    num_approvals_threshold: 1,
+                    unlock_duration: 0,
+                    start_epoch: 0,
+                })
+                .unwrap(),
+                TokenAmount::zero(),
+                Kind::Multisig,
+            ),
+            Code::Paych => (
+                *PAYCH_ACTOR_CODE_ID,
+                RawBytes::serialize(fil_actor_paych::ConstructorParams { from: k, to: id(w.cast.k2) }).unwrap(),
+                TokenAmount::zero(),
+                Kind::Paych,
+            ),
+            Code::Miner => (
+                *MINER_ACTOR_CODE_ID,
+                RawBytes::serialize(fil_actor_miner::MinerConstructorParams {
+                    owner: k,
+                    worker: k,
+                    control_addresses: vec![],
+                    window_post_proof_type: RegisteredPoStProof::StackedDRGWindow32GiBV1P1,
+                    peer_id: b"miner".to_vec(),
+                    multi_addresses: vec![BytesDe(b"multiaddr".to_vec())],
+                })
+                .unwrap(),
+                fil(MINER_VALUE_FIL),
+                Kind::Miner,
+            ),
+            Code::Account => (
+                *ACCOUNT_ACTOR_CODE_ID,
+                RawBytes::serialize(Address::new_bls(&[0x5A; 48]).unwrap()).unwrap(),
+                TokenAmount::zero(),
+                Kind::Account,
+            ),
+            Code::Evm => (
+                *EVM_ACTOR_CODE_ID,
+                evm_ctor(&masked(w.cast.k.0), &init_ok()),
+                TokenAmount::zero(),
+                Kind::Evm,
+            ),
+            Code::Junk => (make_identity_cid(b"c20/junk"), RawBytes::default(), TokenAmount::zero(), Kind::Other),
+            Code::Singleton => (*CRON_ACTOR_CODE_ID, RawBytes::default(), TokenAmount::zero(), Kind::Other),
+        }
+    }
+
+    fn send_target(&self, w: &W, vm: &Vm, m: &Model, to: To) -> Address {
+        match to {
+            To::FreshSecp => Address::new_secp256k1(&[0x07; 65]).unwrap(),
+            To::FreshBls => Address::new_bls(&[0x09; 48]).unwrap(),
+            To::Placeholder => f4(&P1_ETH),
+            To::ForeignNamespace => Address::new_delegated(77, &P1_ETH).unwrap(),
+            To::Precompile => {
+                let mut a = [0u8; 20];
+                a[19] = 1;
+                f4(&a)
+            }
+            To::NativePrecompile => {
+                let mut a = [0u8; 20];
+                a[0] = 0xfe;
+                a[19] = 1;
+                f4(&a)
+            }
+            To::MaskedId => f4(&masked(w.cast.k.0)),
+            To::Null => f4(&[0u8; 20]),
+            To::Create2Addr(s) => f4(&create2_addr(&w.cast.f_eth, s, &init_killable())),
+            To::NextCreateAddr => f4(&create_addr(&w.cast.f_eth, m.evm[&w.cast.f].nonce)),
+            To::NextCreateExternalAddr(Sender::EthAccount) => {
+                f4(&create_addr(&w.cast.e_eth, vm.actor(w.cast.e).map(|a| a.sequence).unwrap_or(0)))
+            }
+            // K sends this message itself, so its CreateExternal can come at the next nonce earliest
+            To::NextCreateExternalAddr(Sender::Account) => {
+                f4(&create_addr(&w.cast.k_stable, vm.actor(w.cast.k.0).map(|a| a.sequence).unwrap_or(0) + 1))
+            }
+        }
+    }
+
+    /// Invoke the factory from K and decode the returned words.
+    fn call_factory(&self, w: &W, input: Vec<u8>) -> (Inv, Vec<[u8; 32]>) {
+        let r = ext(
+            &w.vm,
+            w.cast.k.0,
+            &f4(&w.cast.f_eth),
+            &TokenAmount::zero(),
+            fil_actor_evm::Method::InvokeContract as u64,
+            Some(&fil_actor_evm::InvokeContractParams { input_data: input }),
+        );
+        let mut words = vec![];
+        if r.ok()
+            && let Some(b) = &r.ret
+            && let Ok(BytesDe(d)) = b.deserialize::<BytesDe>()
+        {
+            for c in d.chunks(32) {
+                if c.len() == 32 {
+                    words.push(c.try_into().unwrap());
+                }
+            }
+        }
+        (r, words)
+    }
+
+    /// Judge one CREATE/CREATE2 of the factory against the model and apply it.
+    #[allow(clippy::too_many_arguments)]
+    fn factory_deploy(&self, w: &W, tx: &mut Tx, what: &str, eth: &Eth, ctor: Ctor, rt: Rt, word: Option<&[u8; 32]>, r: &Inv) -> bool {
+        let must = deploy_rule(tx.target(eth), reserved(eth), ctor);
+        let Some(word) = word else {
+            tx.judge(&w.vm, must, false, what, r);
+            return false;
+        };
+        let ok = word != &[0u8; 32];
+        tx.judge(&w.vm, must, ok, what, r);
+        if ok {
+            if word[..12] != [0u8; 12] || word[12..] != eth[..] {
+                tx.fail(format!("{what}: returned address 0x{} but Ethereum's formula gives 0x{}", hex::encode(word), hex::encode(eth)));
+            }
+            tx.deployed(eth, rt, false, false);
+        }
+        ok
+    }
+}
+
+impl Scenario for Identities {
+    type S = VS<Model>;
+    type A = Act;
+    type W = W;
+
+    fn name(&self) -> String {
+        "c20/identities".into()
+    }
+
+    fn worker(&self, store: &Store) -> W {
+        self_test();
+        let vm = Vm::genesis(store.clone(), Policy::default());
+        vm.bump_nonce.set(true);
+        let k = vm.new_account(1, &fil(100_000));
+        let (k2, _) = vm.new_account(2, &fil(1000));
+        for _ in 0..5 {
+            vm.tick();
+        }
+        // impersonated callers need funds for the miner deposit they pass on
+        for to in [STORAGE_POWER_ACTOR_ADDR, EAM_ACTOR_ADDR] {
+            let r = vm.apply(MsgKind::Implicit, &id(FAUCET_ID), &to, &fil(10_000), METHOD_SEND, None);
+            assert!(r.ok(), "SETUP-FAILED funding: {}", r.tree());
+        }
+        let mut problem: Option<String> = None;
+        // a multisig (real Exec by K)
+        let msig_ctor = fil_actor_multisig::ConstructorParams {
+            signers: vec![id(k.0)],
+            num_approvals_threshold: 1,
+            unlock_duration: 0,
+            start_epoch: 0,
+        };
+        let r = ext(
+            &vm,
+            k.0,
+            &INIT_ACTOR_ADDR,
+            &fil(10_000),
+            fil_actor_init::Method::Exec as u64,
+            Some(&ExecParams { code_cid: *MULTISIG_ACTOR_CODE_ID, constructor_params: RawBytes::serialize(&msig_ctor).unwrap() }),
+        );
+        let msig = match r.ret.as_ref().filter(|_| r.ok()).and_then(|b| b.deserialize::<ExecReturn>().ok()) {
+            Some(ret) => ret.id_address.id().unwrap(),
+            None => {
+                problem = Some(format!("base state: an account could not create a multisig\n{}", r.tree()));
+                u64::MAX
+            }
+        };
+        // E: a placeholder (becomes an Ethereum account with its first message)
+        let r = ext(&vm, k.0, &f4(&E_ETH), &fil(1000), METHOD_SEND, NOP);
+        assert!(r.ok(), "SETUP-FAILED placeholder: {}", r.tree());
+        let e = vm.resolve(&f4(&E_ETH)).expect("SETUP-FAILED placeholder id");
+        // F: the factory, deployed by K through the EAM
+        let k_stable: Eth = keccak(&k.1.to_bytes())[12..].try_into().unwrap();
+        let seq = vm.actor(k.0).unwrap().sequence;
+        let f_expected = create_addr(&k_stable, seq);
+        let r = ext(
+            &vm,
+            k.0,
+            &EAM_ACTOR_ADDR,
+            &TokenAmount::zero(),
+            fil_actor_eam::Method::CreateExternal as u64,
+            Some(&fil_actor_eam::CreateExternalParams(init_returning(&factory_runtime()))),
+        );
+        let (f, f_eth) = match r.ret.as_ref().filter(|_| r.ok()).and_then(|b| b.deserialize::<fil_actor_eam::Return>().ok()) {
+            Some(ret) => {
+                if ret.eth_address.0 != f_expected && problem.is_none() {
+                    problem = Some(format!(
+                        "base state: CreateExternal by a key account at nonce {seq} returned 0x{}, keccak(rlp([keccak(key address)[12..], nonce]))[12..] is 0x{}",
+                        hex::encode(ret.eth_address.0),
+                        hex::encode(f_expected)
+                    ));
+                }
+                (ret.actor_id, ret.eth_address.0)
+            }
+            None => {
+                if problem.is_none() {
+                    problem = Some(format!("base state: an account could not deploy a contract through the EAM\n{}", r.tree()));
+                }
+                (u64::MAX, f_expected)
+            }
+        };
+        let base = vm.snapshot();
+        let base_model = self.observe(&vm);
+        let code_hash = [Rt::Factory, Rt::Killable, Rt::Inert, Rt::Empty].map(|rt| keccak(&rt_code(rt)));
+        W { vm, cast: Cast { k, k2, msig, e, e_eth: E_ETH, f, f_eth, k_stable }, base, base_model, base_problem: problem, code_hash }
+    }
+
+    fn bases(&self, w: &W) -> Vec<(String, VS<Model>)> {
+        vec![("accounts+multisig+placeholder+factory".into(), VS { snap: w.base.clone(), m: w.base_model.clone() })]
+    }
+
+    fn key(&self, s: &VS<Model>) -> Key {
+        vs_key(s)
+    }
+
+    fn kind(&self, a: &Act) -> String {
+        match a {
+            Act::Exec(c, code) => format!("Init.Exec({code:?}) by {c:?}"),
+            Act::PowerCreateMiner => "Power.CreateMiner by Account".into(),
+            Act::Exec4(c, s) => format!("Init.Exec4({s:?}) by {c:?}"),
+            Act::CreateExternal(s, i) => format!("EAM.CreateExternal({i:?}) by {s:?}"),
+            Act::Factory(f) => format!("factory {f:?}"),
+            Act::InvokeChild(s) => format!("invoke CREATE2 child (salt {s})"),
+            Act::Send(t) => format!("send to {t:?}"),
+        }
+    }
+
+    fn actions(&self, w: &W, s: &VS<Model>) -> Vec<Act> {
+        let m = &s.m;
+        let mut v = vec![];
+        let codes = [
+            Code::MultisigOk,
+            Code::MultisigBadParams,
+            Code::Paych,
+            Code::Miner,
+            Code::Account,
+            Code::Evm,
+            Code::Junk,
+            Code::Singleton,
+        ];
+        for c in [Caller::Account, Caller::Multisig, Caller::Power, Caller::Eam] {
+            for code in codes {
+                v.push(Act::Exec(c, code));
+            }
+        }
+        v.push(Act::PowerCreateMiner);
+        v.push(Act::Exec4(Caller::Account, Sub::Fresh));
+        for sub in [Sub::Fresh, Sub::PlaceholderAddr, Sub::Factory] {
+            v.push(Act::Exec4(Caller::Eam, sub));
+        }
+        let inits = [InitCode::Empty, InitCode::Ok, InitCode::Reverting, InitCode::EfCode, InitCode::SelfDestructing];
+        for i in inits {
+            v.push(Act::CreateExternal(Sender::Account, i));
+        }
+        let e_can_send = matches!(m.actors.get(&w.cast.e).map(|e| e.kind), Some(Kind::Placeholder | Kind::EthAccount));
+        if e_can_send {
+            for i in inits {
+                v.push(Act::CreateExternal(Sender::EthAccount, i));
+            }
+        }
+        v.push(Act::Factory(FOp::Create));
+        v.push(Act::Factory(FOp::Create2(0)));
+        v.push(Act::Factory(FOp::Create2(1)));
+        v.push(Act::Factory(FOp::Create2Twice(0)));
+        v.push(Act::Factory(FOp::KillAndRecreate(0)));
+        v.push(Act::Factory(FOp::CreateReentrant));
+        v.push(Act::Factory(FOp::CreateReverting));
+        for salt in [0u8, 1] {
+            let a = akey(&f4(&create2_addr(&w.cast.f_eth, salt, &init_killable())));
+            if let Some(id) = m.addrs.get(&a)
+                && m.evm.contains_key(id)
+            {
+                v.push(Act::InvokeChild(salt));
+            }
+        }
+        for t in [
+            To::FreshSecp,
+            To::FreshBls,
+            To::Placeholder,
+            To::ForeignNamespace,
+            To::Precompile,
+            To::NativePrecompile,
+            To::MaskedId,
+            To::Null,
+            To::Create2Addr(1),
+            To::NextCreateAddr,
+            To::NextCreateExternalAddr(Sender::EthAccount),
+            To::NextCreateExternalAddr(Sender::Account),
+        ] {
+            if matches!(t, To::NextCreateExternalAddr(Sender::EthAccount)) && !e_can_send {
+                continue;
+            }
+            v.push(Act::Send(t));
+        }
+        v
+    }
+
+    fn step(&self, w: &W, s: &VS<Model>, a: &Act, _faults: &[usize]) -> Step<VS<Model>> {
+        let vm = &w.vm;
+        vm.restore(&s.snap);
+        if let Some(p) = &w.base_problem {
+            return Step::new(s.clone(), "base").violate(p.clone());
+        }
+        let mut tx = Tx {
+            m: s.m.clone(),
+            zombies: BTreeSet::new(),
+            robust_gain: vec![],
+            promotions: 0,
+            resurrections: 0,
+            kills: 0,
+            viol: None,
+            before: s.m.actors.clone(),
+        };
+        let outcome: &'static str;
+        match a {
+            Act::Exec(c, code) => {
+                let (code_cid, constructor_params, value, kind) = self.exec_params(w, *code);
+                let p = ExecParams { code_cid, constructor_params };
+                let m = fil_actor_init::Method::Exec as u64;
+                let permitted = matches!(code, Code::MultisigOk | Code::MultisigBadParams | Code::Paych)
+                    || (*code == Code::Miner && *c == Caller::Power);
+                let repeated = *c != Caller::Account && tx.m.imp_used.contains(c);
+                let what = if permitted && repeated {
+                    format!("Init.Exec({code:?}) by {c:?}, for which the VM repeats the stable address of the actor this caller created earlier (a mapped address must never be remapped)")
+                } else {
+                    format!("Init.Exec({code:?}) by {c:?}")
+                };
+                let must = if !permitted {
+                    Must::Fail
+                } else if repeated {
+                    // repeated stable address (see Model::imp_used): the existing mapping must stand
+                    Must::Fail
+                } else if *code == Code::MultisigBadParams {
+                    Must::Either
+                } else {
+                    Must::Succeed
+                };
+                if pruned(&tx.m, forecast_of(must, *c == Caller::Account)) {
+                    return Step::skip();
+                }
+                let r = if *c == Caller::Account {
+                    ext(vm, w.cast.k.0, &INIT_ACTOR_ADDR, &value, m, Some(&p))
+                } else {
+                    imp(vm, caller_id(w, *c), &INIT_ACTOR_ADDR, &value, m, Some(&p))
+                };
+                tx.judge(vm, must, r.ok(), &what, &r);
+                if r.ok() {
+                    let nid = tx.new_actor(kind, None, true);
+                    match r.ret.as_ref().and_then(|b| b.deserialize::<ExecReturn>().ok()) {
+                        Some(ret) => {
+                            if ret.id_address != id(nid) {
+                                tx.fail(format!("{what}: returned id {} but the next unused id was {nid}", ret.id_address));
+                            }
+                            if s.m.addrs.contains_key(&akey(&ret.robust_address)) {
+                                tx.fail(format!("{what}: returned a stable address that was already mapped"));
+                            }
+                            if vm.resolve(&ret.robust_address) != Some(nid) {
+                                tx.fail(format!("{what}: the returned stable address does not resolve to the new id {nid}"));
+                            }
+                        }
+                        None => tx.fail(format!("{what}: succeeded without an ExecReturn")),
+                    }
+                    if *c != Caller::Account {
+                        tx.m.imp_used.insert(*c);
+                    }
+                    outcome = "created";
+                } else {
+                    outcome = if permitted { "constructor failed / refused" } else { "refused" };
+                }
+            }
+            Act::PowerCreateMiner => {
+                if pruned(&tx.m, Forecast::Creates) {
+                    return Step::skip();
+                }
+                let r = crate::chain::create_miner(
+                    vm,
+                    w.cast.k.0,
+                    w.cast.k.0,
+                    RegisteredPoStProof::StackedDRGWindow32GiBV1P1,
+                    &fil(MINER_VALUE_FIL),
+                );
+                match r {
+                    Ok(mid) => {
+                        let nid = tx.new_actor(Kind::Miner, None, true);
+                        if mid != nid {
+                            tx.fail(format!("Power.CreateMiner returned id {mid} but the next unused id was {nid}"));
+                        }
+                        outcome = "created";
+                    }
+                    Err(inv) => {
+                        tx.fail(format!("Power.CreateMiner: the power actor could not create a miner\n{}", inv.tree()));
+                        outcome = "refused";
+                    }
+                }
+            }
+            Act::Exec4(c, sub) => {
+                let eth = match sub {
+                    Sub::Fresh => X1_ETH,
+                    Sub::PlaceholderAddr => P1_ETH,
+                    Sub::Factory => w.cast.f_eth,
+                };
+                // The EAM asks for a contract. Any other caller asks for a multisig, whose
+                // constructor would accept: the refusal has to come from Init itself (an EVM
+                // constructor refuses on its own when it finds itself outside the EAM namespace).
+                let p = if *c == Caller::Eam {
+                    Exec4Params {
+                        code_cid: *EVM_ACTOR_CODE_ID,
+                        constructor_params: evm_ctor(&masked(w.cast.k.0), &init_ok()),
+                        subaddress: RawBytes::new(eth.to_vec()),
+                    }
+                } else {
+                    let (code_cid, constructor_params, _, _) = self.exec_params(w, Code::MultisigOk);
+                    Exec4Params { code_cid, constructor_params, subaddress: RawBytes::new(eth.to_vec()) }
+                };
+                let m = fil_actor_init::Method::Exec4 as u64;
+                let z = TokenAmount::zero();
+                let what = format!("Init.Exec4({sub:?}) by {c:?}");
+                let must = if *c != Caller::Eam {
+                    Must::Fail // only the address manager
+                } else if tx.m.imp_used.contains(c) {
+                    Must::Fail // repeated stable address
+                } else {
+                    deploy_rule(tx.target(&eth), reserved(&eth), Ctor::Valid)
+                };
+                if pruned(&tx.m, forecast_of(must, *c == Caller::Account)) {
+                    return Step::skip();
+                }
+                let r = if *c == Caller::Account {
+                    ext(vm, w.cast.k.0, &INIT_ACTOR_ADDR, &z, m, Some(&p))
+                } else {
+                    imp(vm, caller_id(w, *c), &INIT_ACTOR_ADDR, &z, m, Some(&p))
+                };
+                tx.judge(vm, must, r.ok(), &what, &r);
+                if r.ok() {
+                    let t = tx.target(&eth);
+                    let nid = tx.deployed(&eth, Rt::Inert, false, true);
+                    match r.ret.as_ref().and_then(|b| b.deserialize::<ExecReturn>().ok()) {
+                        Some(ret) => {
+                            if ret.id_address != id(nid) {
+                                tx.fail(format!("{what}: returned id {} but the registry says {nid} ({t:?})", ret.id_address));
+                            }
+                            if vm.resolve(&ret.robust_address) != Some(nid) {
+                                tx.fail(format!("{what}: the returned stable address does not resolve to {nid}"));
+                            }
+                        }
+                        None => tx.fail(format!("{what}: succeeded without a return value")),
+                    }
+                    if *c != Caller::Account {
+                        tx.m.imp_used.insert(*c);
+                    }
+                    outcome = match t {
+                        Target::Placeholder(_) => "deployed onto placeholder",
+                        _ => "created",
+                    };
+                } else {
+                    outcome = "refused";
+                }
+            }
+            Act::CreateExternal(sender, ic) => {
+                let (sid, stable) = match sender {
+                    Sender::Account => (w.cast.k.0, w.cast.k_stable),
+                    Sender::EthAccount => (w.cast.e, w.cast.e_eth),
+                };
+                let Some(sact) = vm.actor(sid) else { return Step::skip() };
+                let nonce = sact.sequence;
+                // the first message of a placeholder turns it into an Ethereum account (VM rule)
+                if tx.m.actors.get(&sid).map(|e| e.kind) == Some(Kind::Placeholder) {
+                    Arc::make_mut(&mut tx.m.actors).get_mut(&sid).unwrap().kind = Kind::EthAccount;
+                }
+                let (initcode, ctor, rt) = init_code(*ic);
+                let eth = create_addr(&stable, nonce);
+                let t = tx.target(&eth);
+                let must = deploy_rule(t, reserved(&eth), ctor);
+                if pruned(&tx.m, forecast_of(must, true)) {
+                    return Step::skip();
+                }
+                let r = ext(
+                    vm,
+                    sid,
+                    &EAM_ACTOR_ADDR,
+                    &TokenAmount::zero(),
+                    fil_actor_eam::Method::CreateExternal as u64,
+                    Some(&fil_actor_eam::CreateExternalParams(initcode)),
+                );
+                let what = format!("EAM.CreateExternal({ic:?}) by {sender:?} at nonce {nonce} onto {t:?}");
+                tx.judge(vm, must, r.ok(), &what, &r);
+                if r.ok() {
+                    let nid = tx.deployed(&eth, rt, *ic == InitCode::SelfDestructing, false);
+                    match r.ret.as_ref().and_then(|b| b.deserialize::<fil_actor_eam::Return>().ok()) {
+                        Some(ret) => {
+                            if ret.eth_address.0 != eth {
+                                tx.fail(format!("{what}: returned address 0x{} but keccak(rlp([sender, nonce]))[12..] is 0x{}", hex::encode(ret.eth_address.0), hex::encode(eth)));
+                            }
+                            if ret.actor_id != nid {
+                                tx.fail(format!("{what}: returned id {} but the registry says {nid}", ret.actor_id));
+                            }
+                            if let Some(ra) = ret.robust_address
+                                && vm.resolve(&ra) != Some(nid)
+                            {
+                                tx.fail(format!("{what}: the returned stable address does not resolve to {nid}"));
+                            }
+                        }
+                        None => tx.fail(format!("{what}: succeeded without a return value")),
+                    }
+                    outcome = match t {
+                        Target::Placeholder(_) => "deployed onto placeholder",
+                        Target::Dead(_) => "resurrected",
+                        _ => "created",
+                    };
+                } else {
+                    outcome = if ctor == Ctor::Valid { "refused" } else { "constructor failed" };
+                }
+            }
+            Act::Factory(fop) => {
+                let f = w.cast.f;
+                let f_eth = w.cast.f_eth;
+                let n = tx.m.evm[&f].nonce;
+                let kill_init = init_killable();
+                let mut created = false;
+                let first = match fop {
+                    FOp::Create | FOp::CreateReentrant => Some(create_addr(&f_eth, n)),
+                    FOp::Create2(s) | FOp::Create2Twice(s) => Some(create2_addr(&f_eth, *s, &kill_init)),
+                    // destroys first: a live child becomes a zombie, whose redeployment is not judged
+                    FOp::KillAndRecreate(s) => {
+                        let a = create2_addr(&f_eth, *s, &kill_init);
+                        if matches!(tx.target(&a), Target::Live(_)) { None } else { Some(a) }
+                    }
+                    FOp::CreateReverting => None,
+                };
+                let fc = match (fop, first) {
+                    (FOp::CreateReverting, _) => Forecast::Idle,
+                    (_, Some(a)) => forecast_of(deploy_rule(tx.target(&a), reserved(&a), Ctor::Valid), true),
+                    _ => Forecast::Unknown,
+                };
+                if pruned(&tx.m, fc) {
+                    return Step::skip();
+                }
+                match fop {
+                    FOp::Create => {
+                        let (r, words) = self.call_factory(w, vec![FOP_CREATE]);
+                        if r.ok() {
+                            tx.m.evm.get_mut(&f).unwrap().nonce = n + 1;
+                        }
+                        created = self.factory_deploy(w, &mut tx, "CREATE", &create_addr(&f_eth, n), Ctor::Valid, Rt::Killable, words.first(), &r);
+                    }
+                    FOp::Create2(salt) => {
+                        let (r, words) = self.call_factory(w, vec![FOP_CREATE2, *salt]);
+                        if r.ok() {
+                            tx.m.evm.get_mut(&f).unwrap().nonce = n + 1;
+                        }
+                        created = self.factory_deploy(w, &mut tx, "CREATE2", &create2_addr(&f_eth, *salt, &kill_init), Ctor::Valid, Rt::Killable, words.first(), &r);
+                    }
+                    FOp::Create2Twice(salt) => {
+                        let (r, words) = self.call_factory(w, vec![FOP_TWICE, *salt]);
+                        if r.ok() {
+                            tx.m.evm.get_mut(&f).unwrap().nonce = n + 2;
+                        }
+                        let eth = create2_addr(&f_eth, *salt, &kill_init);
+                        created = self.factory_deploy(w, &mut tx, "first CREATE2", &eth, Ctor::Valid, Rt::Killable, words.first(), &r);
+                        if r.ok() {
+                            created |= self.factory_deploy(w, &mut tx, "second CREATE2 with the same salt and init code in the same message", &eth, Ctor::Valid, Rt::Killable, words.get(1), &r);
+                        }
+                    }
+                    FOp::KillAndRecreate(salt) => {
+                        let eth = create2_addr(&f_eth, *salt, &kill_init);
+                        let mut input = vec![FOP_KILL_RECREATE, *salt];
+                        input.extend_from_slice(&eth);
+                        let (r, words) = self.call_factory(w, input);
+                        if r.ok() {
+                            tx.m.evm.get_mut(&f).unwrap().nonce = n + 1;
+                            if let Target::Live(cid) = tx.target(&eth)
+                                && tx.m.evm[&cid].rt == Rt::Killable
+                            {
+                                tx.zombies.insert(cid);
+                                tx.kills += 1;
+                            }
+                        }
+                        created = self.factory_deploy(w, &mut tx, "CREATE2 after destroying the child in the same message", &eth, Ctor::Valid, Rt::Killable, words.first(), &r);
+                    }
+                    FOp::CreateReentrant => {
+                        let (r, words) = self.call_factory(w, vec![FOP_REENTRANT]);
+                        if r.ok() {
+                            tx.m.evm.get_mut(&f).unwrap().nonce = n + 2;
+                        }
+                        let outer = create_addr(&f_eth, n);
+                        let inner = create_addr(&f_eth, n + 1);
+                        // the outer CREATE allocates first (its constructor then runs the inner one)
+                        created = self.factory_deploy(w, &mut tx, "CREATE (outer, constructor re-enters the factory)", &outer, Ctor::Valid, Rt::Inert, words.first(), &r);
+                        if created {
+                            // the inner result is not returned; the rule is definite (fresh nonce) and
+                            // the table comparison decides
+                            let must = deploy_rule(tx.target(&inner), reserved(&inner), Ctor::Valid);
+                            if must != Must::Fail {
+                                tx.deployed(&inner, Rt::Killable, false, false);
+                                if vm.resolve(&f4(&inner)).and_then(|i| vm.actor(i)).map(|a| kind_of(&a.code)) != Some(Kind::Evm) {
+                                    tx.fail(format!(
+                                        "nested CREATE: the deployer's second CREATE in this message (nonce {}) left no contract at keccak(rlp([deployer, {}]))[12..] = 0x{}; every CREATE consumes its own nonce\n{}",
+                                        n + 1,
+                                        n + 1,
+                                        hex::encode(inner),
+                                        r.tree()
+                                    ));
+                                }
+                            }
+                        }
+                    }
+                    FOp::CreateReverting => {
+                        let (r, words) = self.call_factory(w, vec![FOP_REVERTING]);
+                        if r.ok() {
+                            tx.m.evm.get_mut(&f).unwrap().nonce = n + 1;
+                        }
+                        self.factory_deploy(w, &mut tx, "CREATE with a reverting constructor", &create_addr(&f_eth, n), Ctor::Reverts, Rt::Empty, words.first(), &r);
+                    }
+                }
+                outcome = if tx.resurrections > 0 {
+                    "resurrected"
+                } else if tx.promotions > 0 {
+                    "deployed onto placeholder"
+                } else if created {
+                    "created"
+                } else {
+                    "creation refused (nonce consumed)"
+                };
+            }
+            Act::InvokeChild(salt) => {
+                let eth = create2_addr(&w.cast.f_eth, *salt, &init_killable());
+                let t = tx.target(&eth);
+                let fc = match t {
+                    Target::Live(cid) if tx.m.evm[&cid].rt == Rt::Killable => Forecast::Kills,
+                    Target::Dead(_) => Forecast::Idle,
+                    _ => Forecast::Unknown,
+                };
+                if pruned(&tx.m, fc) {
+                    return Step::skip();
+                }
+                let r = ext(
+                    vm,
+                    w.cast.k.0,
+                    &f4(&eth),
+                    &TokenAmount::zero(),
+                    fil_actor_evm::Method::InvokeContract as u64,
+                    Some(&fil_actor_evm::InvokeContractParams { input_data: vec![] }),
+                );
+                outcome = match (r.ok(), t) {
+                    (true, Target::Live(cid)) if tx.m.evm[&cid].rt == Rt::Killable => {
+                        tx.zombies.insert(cid);
+                        tx.kills += 1;
+                        "self-destructed"
+                    }
+                    (true, _) => "no effect",
+                    (false, _) => "failed",
+                };
+            }
+            Act::Send(to) => {
+                let target = self.send_target(w, vm, &tx.m, *to);
+                let known = tx.m.addrs.contains_key(&akey(&target));
+                // the VM's auto-creation rule is deterministic (mcvm, not /repo)
+                let fc = if known || *to == To::ForeignNamespace { Forecast::Idle } else { Forecast::Creates };
+                if pruned(&tx.m, fc) {
+                    return Step::skip();
+                }
+                let r = ext(vm, w.cast.k.0, &target, &atto(1), METHOD_SEND, NOP);
+                if *to == To::ForeignNamespace && r.ok() {
+                    tx.fail("a send to an f4 address outside the EAM namespace succeeded (harness VM rule)".into());
+                }
+                if r.ok() && !known {
+                    // auto-creation is the VM's doing (mirrors ref-fvm): adopt it, the registry rules apply
+                    match target.payload() {
+                        Payload::Secp256k1(_) | Payload::BLS(_) => {
+                            tx.new_actor(Kind::Account, Some(&target), false);
+                        }
+                        _ => {
+                            tx.new_actor(Kind::Placeholder, Some(&target), false);
+                        }
+                    }
+                    outcome = "auto-created";
+                } else if r.ok() {
+                    outcome = "delivered to existing actor";
+                } else {
+                    outcome = "failed";
+                }
+            }
+        }
+        // budgets (they bound the explored space; a step beyond them is not part of it)
+        let created = (tx.m.next_id - s.m.next_id) as u32 + tx.promotions + tx.resurrections;
+        if tx.viol.is_none() {
+            if created > 0 {
+                if tx.m.creations_left < created {
+                    return Step::skip();
+                }
+                tx.m.creations_left -= created;
+            } else if tx.kills > 0 {
+                if tx.m.kills_left == 0 {
+                    return Step::skip();
+                }
+                tx.m.kills_left -= 1;
+            }
+        }
+        // end of message: contracts that self-destructed are dead from now on
+        for z in std::mem::take(&mut tx.zombies) {
+            if let Some(e) = tx.m.evm.get_mut(&z) {
+                e.dead = true;
+            }
+        }
+        let snap = vm.snapshot();
+        if tx.viol.is_none() && created == 0 && tx.kills == 0 && snap.root != s.snap.root {
+            if tx.m.idle_left == 0 {
+                return Step::skip();
+            }
+            tx.m.idle_left -= 1;
+        }
+        // A refused message of an impersonated caller leaves root and registry as they were: that
+        // state has been compared when it was reached.
+        let unchanged = snap.root == s.snap.root
+            && tx.m.next_id == s.m.next_id
+            && tx.m.actors == s.m.actors
+            && tx.m.addrs == s.m.addrs
+            && tx.m.evm == s.m.evm;
+        if tx.viol.is_none() && !unchanged {
+            self.compare(w, &s.m, &mut tx);
+        }
+        let mut st = Step::new(VS { snap, m: tx.m }, outcome);
+        st.agreed = if tx.viol.is_none() { 1 } else { 0 };
+        st.violation = tx.viol;
+        st
+    }
+
+    fn describe(&self) -> serde_json::Value {
+        json!({
+            "policy": "MAINNET",
+            "nonces": "External messages bump the sender nonce; nonces are part of the state key",
+            "cast": "key account K, key account K2, multisig M (signer K), placeholder/Ethereum account E, factory contract F (deployed by K through the EAM), power actor, EAM",
+            "budgets": {"creations per history": self.creations, "self-destructs per history": self.kills, "steps that change nothing in the registry (nonce only)": self.idle},
+            "alphabet": {
+                "Init.Exec": "callers {account, multisig(imp), power(imp), EAM(imp)} x code {multisig ok, multisig bad params, paych, miner (valid params, deposit attached), account, evm, junk cid, singleton (cron)}",
+                "Power.CreateMiner": "real path, by the account",
+                "Init.Exec4": "by account (multisig code with valid parameters, fresh address); by EAM(imp) (contract code) onto {fresh address, placeholder address, live contract}",
+                "EAM.CreateExternal": "senders {account, placeholder->ethaccount} x init code {empty, ok, reverting, returns 0xEF code, self-destructs in constructor}",
+                "factory": "CREATE; CREATE2 salt 0/1; CREATE2 twice same salt in one message; destroy child then CREATE2 again in the same message; CREATE whose constructor re-enters the factory (nested CREATE); CREATE with reverting constructor",
+                "invoke child": "self-destructs the CREATE2 child (salt 0/1); the next CREATE2 with that salt is the resurrection path",
+                "send": "fresh f1, fresh f3, f4 in EAM namespace, f4 in a foreign namespace, precompile 0x00..01, native precompile 0xfe..01, masked id 0xff..id, null address, the factory's CREATE2(salt 1) address, the factory's next CREATE address, the next CreateExternal address of E and of K",
+            },
+            "oracle": "id-registry model in lock-step: full actor table (id -> code kind, f4), full Init address map (stability, exactly the predicted new key/f4 entries, exactly one new stable address per Init-created actor), next_id, contract nonces and code hashes after every step; returned ids/addresses against independently computed CREATE/CREATE2 addresses",
+        })
+    }
+}
+
+pub fn scenario(tier: &str) -> (Identities, Bounds) {
+    if tier_is_thorough(tier) {
+        (
+            // the budgets add up to 6 steps: depth 7 is every history within them
+            Identities { creations: 3, kills: 2, idle: 1 },
+            Bounds { max_depth: 7, wall_cap_s: 1200.0, ..Default::default() },
+        )
+    } else {
+        (
+            // the budgets add up to 6 steps: depth 6 is every history within them
+            Identities { creations: 2, kills: 2, idle: 2 },
+            Bounds { max_depth: 6, wall_cap_s: 60.0, ..Default::default() },
+        )
+    }
+}
+
+pub fn run(tier: &str) -> ! {
+    let (scn, b) = scenario(tier);
+    let mut run = mcx::evidence::Run::new("C20", tier, "model_checking");
+    run.assumptions = vec![
+        "mcvm mirrors the FVM message semantics (value transfer, rollback, caller validation), ref-fvm's auto-creation on send (f1/f3 -> account, f4 in the EAM namespace -> placeholder, anything else -> not found), placeholder -> ethaccount promotion on the first outgoing message, and derives the stable address of a new actor from (origin, origin nonce, per-message counter)".into(),
+        "impersonated callers (multisig, power, EAM calling Init directly) have no nonce: a second creation by the same impersonated caller repeats the stable address and is required to be refused; the real Power.CreateMiner and EAM paths are exercised as well".into(),
+        "the Ethereum-style address of a key account is keccak256(key address bytes)[12..] (FIP-0055); keccak-256 itself is trusted (multihash-codetable), the RLP and the two address formulas are re-implemented here and checked against public vectors at start-up".into(),
+        "a creation with valid parameters by a permitted creator is required to succeed; resurrection of a self-destructed contract, constructors that self-destruct, EIP-3541 code and bad multisig parameters are not judged (either outcome is adopted)".into(),
+        "reserved Ethereum addresses can only be reached by plain sends (hash pre-images are out of reach), so `reserved ranges are never assigned` is checked as: such an address never holds anything but a VM-made placeholder".into(),
+        "budgets on creations / self-destructs / nonce-only steps per history bound the space in addition to the depth".into(),
+    ];
+    run.add(mcx::explore(&scn, &b));
+    run.finish()
 }
 
 /// Replay a violation file written by this check; `v` is the parsed replay JSON.
-pub fn replay(_v: &serde_json::Value) -> ! {
-    eprintln!("C20: replay not implemented");
-    std::process::exit(2)
+pub fn replay(v: &serde_json::Value) -> ! {
+    let tier = v["tier"].as_str().unwrap_or("thorough");
+    crate::replay_with(&scenario(tier).0, v)
 }
